@@ -35,15 +35,17 @@ def build(prog, spec):
     for nm, (kind, pt) in spec["nodes"].items():
         n = default_obj(prog, "Avoid::HyperedgeTreeNode", {"edges": Vec([], "Avoid::HyperedgeTreeEdge *"), "point": P(prog, *pt)})
         n.f["_name"] = nm
-        if kind == "J":
+        if kind in ("J", "X"):
             n.f["junction"] = default_obj(prog, "Avoid::JunctionRef", {"m_position": P(prog, *pt)})
             n.f["junction"].f["_name"] = "J:" + nm
-        if kind in ("T", "S", "D"):
+        if kind in ("T", "S", "D", "X"):
+            # X: the dummy centre vertex of a terminal whose pin class has several pins, after the spanning tree has passed THROUGH it
+            # (MinimumTerminalSpanningTree::addNode turns the already existing terminal node into a junction): junction and terminal at once
             n.f["finalVertex"] = default_obj(prog, "Avoid::VertInf", {"point": P(prog, *pt)})
             n.f["finalVertex"].f["_name"] = "T:" + nm
         if kind == "S":
             n.f["isConnectorSource"] = True
-        if kind in ("D", "Q"):
+        if kind in ("D", "Q", "X"):
             # D: the dummy end-point vertex behind a connection pin; Q: its orthogonal-partner copy (same position), through which the
             # spanning tree reaches D when the pin is entered in the other dimension.  Both are flagged by the tree builder
             # (rule DUMMY-NODES-FLAGGED checks MinimumTerminalSpanningTree::buildHyperedgeTreeToRoot for that).
@@ -82,7 +84,7 @@ def expected_paths(spec, root):
                 prev, cur = cur, nxt[0]
                 path.append(cur)
             paths.append(path)
-            if kind[cur] == "J":
+            if kind[cur] in ("J", "X"):
                 walk_from(cur, path[-2])
     walk_from(root, None)
     return paths
@@ -165,7 +167,7 @@ def check_tree(prog, spec, root, old_conns_know_terminals=True):
             return ce.f["_junction"].f["_name"] if ce.f.get("_junction") is not None else ce.f.get("_terminal")
         ends = {k: [name(x) for x in v] for k, v in c.f["_ends"].items()}
         want_src = "J:" + path[0]
-        want_tar = ("J:" if kind[path[-1]] == "J" else "T:") + path[-1]
+        want_tar = ("J:" if kind[path[-1]] in ("J", "X") else "T:") + path[-1]
         if ends.get(1) != [want_src]:
             return "connector for path %s: source end(s) %s, expected exactly [%s]" % ("-".join(path), ends.get(1), want_src)
         if ends.get(2) != [want_tar]:
@@ -182,7 +184,13 @@ def check_tree(prog, spec, root, old_conns_know_terminals=True):
                 "-".join(path), [(str(a), str(b)) for a, b in rt], [(str(a), str(b)) for a, b in want_rt])
     if len(conns) != len(paths):
         return "%d connectors created for %d junction-free paths" % (len(conns), len(paths))
-    want_js = sorted("J:" + k for k, v in kind.items() if v == "J")
+    for nm, k in kind.items():
+        if k == "X":
+            n_att = sum(1 for c in conns for v in c.f["_ends"].values() for x in v if x.f.get("_terminal") == "T:" + nm)
+            if n_att != 1:
+                return ("terminal T:%s, whose node the tree passes through (it is a junction as well), is the end of %d connectors, expected exactly 1: "
+                        "the hyperedge loses this terminal" % (nm, n_att))
+    want_js = sorted("J:" + k for k, v in kind.items() if v in ("J", "X"))
     got_js = sorted(j.f["_name"] for j in js.items)
     if got_js != want_js:
         return "list of junctions is %s, expected each junction once: %s" % (got_js, want_js)
@@ -211,6 +219,9 @@ HAND = [
     ("centre pin entered in the other dimension (pin, partner copy and dummy vertex all coincide)",
      {"nodes": {"J": ("J", (0, 0)), "x": ("N", (10, 0)), "p": ("N", (10, 9)), "q": ("Q", (10, 9)), "t": ("D", (10, 9)), "b": ("T", (0, 9)), "c": ("S", (-9, 0))},
       "edges": [("J", "x"), ("x", "p"), ("p", "q"), ("q", "t"), ("J", "b"), ("J", "c")]}, "J"),
+    ("terminal with a two-pin class that the tree passes through (its dummy centre node is junction and terminal at once)",
+     {"nodes": {"x": ("X", (0, 0)), "p": ("N", (-4, 0)), "a": ("T", (-10, 0)), "q": ("N", (4, 0)), "b": ("T", (10, 0))},
+      "edges": [("x", "p"), ("p", "a"), ("x", "q"), ("q", "b")]}, "x"),
     ("long bends", {"nodes": {"J": ("J", (0, 0)), "p": ("N", (3, 0)), "q": ("N", (3, 3)), "a": ("T", (6, 3)), "b": ("T", (0, 9)), "c": ("S", (-9, 0))},
                     "edges": [("J", "p"), ("p", "q"), ("q", "a"), ("J", "b"), ("J", "c")]}, "J"),
 ]
